@@ -329,3 +329,15 @@ End Proofs2.
 
 Print Assumptions takemerge_fine_members_stopped.
 Check takemerge_fine_members_stopped.
+
+(** the two halves together at this granularity: with enough fuel every run ends, and unless a delivery
+    overtook the greeting (KF4) the finished trace passes the whole check *)
+Theorem takemerge_fine_always_passes max n qs fins sch fuel :
+  1 <= max -> fuel >= takemerge_fine_fuel n qs n ->
+  let s := run_full (xf_step max n) xf_finished n sch fuel (xf_init n qs fins) in
+  before_greet_ok (rev (xfs_tr s)) = true -> takemerge_check max (rev (xfs_tr s)) = [].
+Proof.
+  intros Hm Hf s Hb. apply (@takemerge_fine_driver_final max n qs fins n sch fuel Hm); [|exact Hb].
+  exact (@takemerge_fine_run_full_total max n qs fins n sch fuel Hf).
+Qed.
+Print Assumptions takemerge_fine_always_passes.
